@@ -44,6 +44,7 @@ type rangeBound struct {
 
 type RangeVal struct {
 	prefix Value // full-key prefix on the first component of a pair key (nil = none)
+	until  Value // collections.NewPrefixUntilPairRange: no start; every first component below it, bounds apply within it
 	start  *rangeBound
 	end    *rangeBound
 	desc   bool
@@ -161,6 +162,17 @@ func (e *Exec) inRange(rv *RangeVal, key Value) bool {
 			panic(abortRun{kind: "error", msg: "prefixed range over non-pair key"})
 		}
 		if !e.branch(e.valEq(pk.a, rv.prefix)) {
+			return false
+		}
+	}
+	if rv.until != nil {
+		pk, isPair := key.(*PairVal)
+		if !isPair {
+			panic(abortRun{kind: "error", msg: "prefix-until range over non-pair key"})
+		}
+		if c := e.keyCmp(pk.a, rv.until); c < 0 {
+			return true // the range has no start: all lower first components are inside
+		} else if c > 0 {
 			return false
 		}
 	}
@@ -405,6 +417,9 @@ func init() {
 	reg(C+"NewPrefixedPairRange", func(e *Exec, fn *ssa.Function, a []Value) Value {
 		return &RangeVal{prefix: a[0]}
 	})
+	reg(C+"NewPrefixUntilPairRange", func(e *Exec, fn *ssa.Function, a []Value) Value {
+		return &RangeVal{until: a[0]}
+	})
 	const MP = "(" + C + "Map[K, V])."
 	reg(MP+"Get", func(e *Exec, fn *ssa.Function, a []Value) Value {
 		c := e.coll(a[0], "Map.Get")
@@ -492,11 +507,19 @@ func init() {
 		})
 		reg(recvT+"StartInclusive", func(e *Exec, fn *ssa.Function, a []Value) Value {
 			r, p := rangeOf(e, a[0])
+			if r.until != nil {
+				// the library dereferences the (nil) start key of a prefix-until range
+				panic(&goPanic{val: "runtime error: invalid memory address or nil pointer dereference"})
+			}
 			r.start = &rangeBound{key: a[1], inclusive: true}
 			return p
 		})
 		reg(recvT+"StartExclusive", func(e *Exec, fn *ssa.Function, a []Value) Value {
 			r, p := rangeOf(e, a[0])
+			if r.until != nil {
+				// the library dereferences the (nil) start key of a prefix-until range
+				panic(&goPanic{val: "runtime error: invalid memory address or nil pointer dereference"})
+			}
 			r.start = &rangeBound{key: a[1], inclusive: false}
 			return p
 		})
